@@ -22,3 +22,5 @@ def run(ctx):
     _sched.validate(ctx, progs, "random add/remove/step histories, 6 ids, priorities -2..2")
     progs = [S.random_program(rng, n_ids=4, prios=(-7, 0, 0, 5, 2000000000, -2000000000), length=25) for _ in range(n // 3)]
     _sched.validate(ctx, progs, "random histories with repeated / extreme priorities")
+    from .. import suite
+    suite.run(ctx, ["sched"])
